@@ -49,29 +49,77 @@ def validate(sc, files, parallel, timeout=3000):
     return {"accepted": not rej, "rejections": rej, "kf": kf, "states": states, "drift": drift}
 
 
+def corrupted_field_selftest(sc, merged):
+    """The binding bites: take the first recorded task whose sink saw an integer value, change that one logged
+    value by one and require TLC to reject the trace (a validation that accepts anything would pass unnoticed)."""
+    import json
+    seg, hit = [], False
+    for ln in open(merged):
+        if ln.startswith('{"ev":"Reset"'):
+            seg = []
+        seg.append(ln)
+        if ln.startswith('{"ev":"Drain"'):
+            ev = json.loads(ln)
+            for o in ev["outs"]:
+                flds = o["fields"] if o["kind"] == "p" else (o["pts"][0]["fields"] if o["pts"] else {})
+                for name, f in flds.items():
+                    if name != "i" and f["k"] in ("int", "float") and not hit:
+                        f["v"] += 1
+                        hit = True
+            if hit:
+                seg[-1] = json.dumps(ev, separators=(",", ":")) + "\n"
+                break
+    if not hit:
+        raise V.Broken("self-test: no recorded output value to corrupt")
+    fp = os.path.join(sc.sub("selftest"), "corrupted.ndjson")
+    with open(fp, "w") as f:
+        f.write("".join(seg))
+    res = V.run_tlc(sc, "Aggregates", "AggregatesTraceMC.tla", "AggregatesTrace.cfg", workers=1, timeout=600,
+                    env_extra={"TRACE_FILE": fp})
+    if res["rejected_at"] != len(seg):
+        raise V.Broken("self-test: a trace with one corrupted output value was NOT rejected at its Drain line "
+                       "(rejected_at=%r, expected %d)" % (res["rejected_at"], len(seg)))
+    V.log("self-test: trace with one corrupted output value rejected at line %d as required" % len(seg))
+
+
 def run(sc, tier, seed):
+    import concurrent.futures
     R = V.Result("C11", tier, seed)
     V.build_harness()
-    # design level: lifecycle x history (NoStaleContext), definitions total on the domain, typing, empty-batch rule
-    suf = "quick" if tier == "quick" else "thorough"
-    for cfg in ("Aggregates_%s.cfg" % suf, "Aggregates_dom_%s.cfg" % suf, "Aggregates_domS_%s.cfg" % suf):
-        R.add_model(V.model_check(sc, "Aggregates", "AggregatesMC.tla", cfg, timeout=1500))
+    # design level: lifecycle x history (NoStaleContext), definitions total on the domain, typing, empty-batch rule.
+    # The exhaustive runs (4 TLC workers each) go on in the background while the driver runs the real code.
+    if tier == "quick":
+        cfgs = ["Aggregates_quick.cfg", "Aggregates_dom_quick.cfg", "Aggregates_domS_quick.cfg"]
+    else:
+        cfgs = ["Aggregates_thorough.cfg", "Aggregates_stream_thorough.cfg", "Aggregates_stream2_thorough.cfg",
+                "Aggregates_dom_thorough.cfg", "Aggregates_domS_thorough.cfg"]
+    pool = concurrent.futures.ThreadPoolExecutor(max_workers=3)
+    futs = [pool.submit(V.model_check, sc, "Aggregates", "AggregatesMC.tla", cfg, 4, 2400) for cfg in cfgs]
     # the invariant is not vacuous: the creator cache as it was before the fix violates it
-    res = V.model_check(sc, "Aggregates", "AggregatesMC.tla", "Aggregates_buggy.cfg", timeout=600,
-                        expect_violation=["NoStaleContext"])
+    fbug = pool.submit(V.model_check, sc, "Aggregates", "AggregatesMC.tla", "Aggregates_buggy.cfg", 4, 600,
+                       ["NoStaleContext"])
+    try:
+        # B1: systematic + seeded random inputs on real tasks, every output recomputed by TLC
+        out, meta = V.run_driver(sc, "c11", tier, seed, timeout=3000)
+        R.add_meta(meta)
+        # one merged file: split at Reset lines into as many parts as validation JVMs (fewer, larger JVM runs)
+        merged = os.path.join(out, "all.ndjson")
+        with open(merged, "w") as f:
+            for fp in sorted(meta["trace_files"]):
+                f.write(open(fp).read())
+        corrupted_field_selftest(sc, merged)
+        val = validate(sc, [merged], 12)
+        for fu in futs:
+            R.add_model(fu.result())
+        res = fbug.result()
+    finally:
+        pool.shutdown(wait=True, cancel_futures=True)
     if res["violated"] != "NoStaleContext":
         raise V.Broken("Aggregates_buggy.cfg no longer violates NoStaleContext: the invariant has become vacuous")
     R.notes["seeded_model_fault_detected"] = "Aggregates_buggy.cfg (pre-fix creator cache) violates NoStaleContext"
-    # B1: systematic + seeded random inputs on real tasks, every output recomputed by TLC
-    out, meta = V.run_driver(sc, "c11", tier, seed, timeout=3000)
-    R.add_meta(meta)
-    # one merged file: verifylib splits it at Reset lines into as many parts as validation JVMs (fewer, larger JVM runs)
-    merged = os.path.join(out, "all.ndjson")
-    with open(merged, "w") as f:
-        for fp in sorted(meta["trace_files"]):
-            f.write(open(fp).read())
-    val = validate(sc, [merged], 12 if tier == "quick" else 16)
-    R.notes["drift_point_order_in_batches"] = val["drift"]   # traces whose distinct/top/bottom point ORDER differs from the code-shaped order
+    R.notes["model_configs"] = cfgs
+    # traces whose distinct/top/bottom point ORDER differs from the code-shaped order (observation, not a verdict)
+    R.notes["drift_point_order_in_batches"] = val["drift"]
     R.states += val["states"]
     R.handle_validation(val)
     return R.finish("model_checking", ASSUME)
